@@ -32,7 +32,8 @@ _orig_run = subprocess.run
 W: dict = {}          # per-process state: griffe module, scratch dir, templates
 REC = None            # the active Recorder (None: wrappers pass through)
 
-TMP_BRANCH_TABLE = {"v1": "griffe-v1", "feat/x": "griffe-feat-x", "x": "griffe-x", "bad": "griffe-bad", "v0": "griffe-v0", "nope": "griffe-nope", "HEAD": "griffe-HEAD"}
+TMP_BRANCH_TABLE = {"v1": "griffe-v1", "feat/x": "griffe-feat-x", "x": "griffe-x", "bad": "griffe-bad", "v0": "griffe-v0", "nope": "griffe-nope", "HEAD": "griffe-HEAD",
+                    "feat-x": "griffe-feat-x", "HEAD~1": "griffe-HEAD-1", "refs/tags/v1": "griffe-refs-tags-v1"}
 
 
 class ExtBoom(Exception):
@@ -55,6 +56,7 @@ class Recorder:
         self.errors = []         # harness-level oddities (unknown command, ...)
         self.tmp_branch = {}     # phase -> temporary branch name the real code used
         self.listing0 = {}       # checkout -> file listing right after `worktree add`
+        self.plain = False       # inside check()'s plain load() of the working tree (no base_ref)
 
     # ---- snapshots ---------------------------------------------------------------------------------
     def raw(self, full: bool = False) -> dict:
@@ -262,7 +264,7 @@ def install(griffe):
 
     def find_wrapper(self, *a, **kw):
         rec = REC
-        if rec is None or not rec.once("Find"):
+        if rec is None or rec.plain or not rec.once("Find"):
             return orig_find(self, *a, **kw)
         try:
             r = orig_find(self, *a, **kw)
@@ -278,7 +280,7 @@ def install(griffe):
 
     def pkg_wrapper(self, *a, **kw):
         rec = REC
-        if rec is None or not rec.once("Analyse"):
+        if rec is None or rec.plain or not rec.once("Analyse"):
             return orig_pkg(self, *a, **kw)
         rec.maybe_interrupt("Analyse")
         try:
@@ -295,7 +297,7 @@ def install(griffe):
 
     def resolve_wrapper(self, *a, **kw):
         rec = REC
-        if rec is None or not rec.once("ResolveAliases"):
+        if rec is None or rec.plain or not rec.once("ResolveAliases"):
             return orig_resolve(self, *a, **kw)
         rec.maybe_interrupt("ResolveAliases")
         r = orig_resolve(self, *a, **kw)
@@ -322,6 +324,29 @@ def install(griffe):
         return obj
 
     _griffe.cli.load_git = load_git_wrapper
+
+    orig_cli_load = _griffe.cli.load
+
+    def cli_load_wrapper(*a, **kw):      # check() without base_ref: plain load of the user's working tree
+        rec = REC
+        if rec is None:
+            return orig_cli_load(*a, **kw)
+        rec.phase = 2
+        rec.maybe_interrupt("LoadWT")
+        rec.location = None
+        rec.plain = True
+        try:
+            obj = orig_cli_load(*a, **kw)
+        except BaseException:
+            rec.log("LoadWT", ok=False)
+            raise
+        finally:
+            rec.plain = False
+        rec.results.append(obj)
+        rec.log("LoadWT", ok=True)
+        return obj
+
+    _griffe.cli.load = cli_load_wrapper
     W["load_git"] = load_git_wrapper
 
     orig_import = _griffe.importer.import_module
@@ -342,6 +367,10 @@ def install(griffe):
     class RecExt(griffe.Extension):
         def on_package_loaded(self, *, pkg, **kwargs):  # noqa: ARG002
             rec = REC
+            if rec is not None and rec.plain:
+                if rec.plan["extAt"] == 2:
+                    raise ExtBoom("extension failure")
+                return
             if rec is None or not rec.once("ExtensionHook"):
                 return
             rec.maybe_interrupt("ExtensionHook")
@@ -391,14 +420,14 @@ def init_worker(scratch_dir: str):
 
 def _fresh_repo(plan: dict):
     """A repository in its initial state; re-used when the previous run left it untouched."""
-    key = (plan["bc"] == "ignored", plan["status0"])
+    key = (plan["bc"] == "ignored", plan["status0"], bool(plan.get("notags")))
     hit = W["cached"].pop(key, None)
     if hit:
         return hit
     W["n"] += 1
     base = os.path.join(W["base"], f"r{W['n']}")
     os.makedirs(base)
-    repo, uwt = c20_repo.instantiate(W["templates"][key[0]], base, plan["status0"])
+    repo, uwt = c20_repo.instantiate(W["templates"][key[0]], base, plan["status0"], key[2])
     return base, repo, uwt, None
 
 
@@ -410,6 +439,7 @@ def run_case(case: dict) -> dict:
     """Execute one fault schedule.  Returns the trace and the terminal evaluation on the real snapshots."""
     global REC
     plan = case["plan"]
+    plan.setdefault("notags", False)
     g = W["griffe"]
     base, repo, uwt, cached_raw = _fresh_repo(plan)
     for n in os.listdir(W["tmp"]):                # leftovers of a previous (leaking) run are not ours
@@ -436,7 +466,7 @@ def run_case(case: dict) -> dict:
             old_err = sys.stderr
             sys.stderr = buf
             try:
-                exitcode = cli.check(PKG, None if plan["latest"] else plan["ref1"], base_ref=plan["ref2"], extensions=[W["RecExt"]()],
+                exitcode = cli.check(PKG, None if plan["latest"] else plan["ref1"], base_ref=None if plan["ref2"] == "WT" else plan["ref2"], extensions=[W["RecExt"]()],
                                      force_inspection=inspect, color=False)
             finally:
                 with contextlib.suppress(Exception):
@@ -445,8 +475,9 @@ def run_case(case: dict) -> dict:
                     colorama.deinit()
                 sys.stderr = old_err
                 stderr_text = buf.getvalue()
-            rec.phase = 3
-            rec.log("Diff", exitcode=exitcode)
+            if rec.phase:                  # no Diff when check() returned before any load (no tags: exit 2)
+                rec.phase = 3
+                rec.log("Diff", exitcode=exitcode)
     except BaseException as exc:  # noqa: BLE001
         outcome = exc_class(exc)
         exc_text = "".join(traceback.format_exception_only(type(exc), exc)).strip()[:300]
@@ -490,14 +521,14 @@ def run_case(case: dict) -> dict:
     if final_raw["tmp"]:
         bad.append(("tmpdirs", f"temporary checkout left behind under {W['tmp']}: {final_raw['tmp']}"))
     lines_ok = []
-    if outcome == "returned":
+    if outcome == "returned" and exitcode != 2:
         refs = [plan["ref1"]] if plan["op"] == "load" else [plan["ref1"], plan["ref2"]]
         if len(rec.results) != len(refs):
             rec.errors.append(f"{len(rec.results)} objects returned for {len(refs)} load_git calls")
         for obj, ref in zip(rec.results, refs):
             try:
-                want = expected_lines(repo, ref)
-                checkout_gone = not os.path.exists(str(obj.filepath))
+                want = expected_lines(repo, "HEAD" if ref == "WT" else ref)
+                checkout_gone = ref == "WT" or not os.path.exists(str(obj.filepath))
                 got = list(obj.lines)
                 src = obj.source
                 ok = got == want and src.strip() != "" and checkout_gone
@@ -524,7 +555,7 @@ def run_case(case: dict) -> dict:
     bad = _bad
     # keep the repository for the next run only if it is exactly as before
     if not bad and final_raw == init_raw and plan["repoOk"]:
-        W["cached"][(plan["bc"] == "ignored", plan["status0"])] = (base, repo, uwt, rec.init_raw)
+        W["cached"][(plan["bc"] == "ignored", plan["status0"], bool(plan.get("notags")))] = (base, repo, uwt, rec.init_raw)
     else:
         shutil.rmtree(base, ignore_errors=True)
     for name in [m for m in sys.modules if m == PKG or m.startswith(PKG + ".")]:
